@@ -10,6 +10,8 @@ use std::panic::{catch_unwind, AssertUnwindSafe};
 
 thread_local! {
     static LAST_PANIC: RefCell<Option<(String, String)>> = const { RefCell::new(None) };
+    /// > 0 while library code runs under `guarded`; a panic outside is a harness bug and is printed
+    static GUARD_DEPTH: std::cell::Cell<u32> = const { std::cell::Cell::new(0) };
 }
 
 /// Install a silent panic hook that records (message, location) per thread.
@@ -25,6 +27,9 @@ pub fn install_panic_hook() {
                 "<non-string panic>".to_string()
             };
             let loc = info.location().map(|l| format!("{}:{}", l.file(), l.line())).unwrap_or_default();
+            if GUARD_DEPTH.with(|d| d.get()) == 0 {
+                eprintln!("HARNESS PANIC: {} at {}", msg, loc);
+            }
             LAST_PANIC.with(|p| *p.borrow_mut() = Some((msg, loc)));
         }));
     });
@@ -36,7 +41,10 @@ pub fn take_panic() -> (String, String) {
 
 /// Run `f`, turning a panic into Err((message, location)).
 pub fn guarded<T>(f: impl FnOnce() -> T) -> Result<T, (String, String)> {
-    match catch_unwind(AssertUnwindSafe(f)) {
+    GUARD_DEPTH.with(|d| d.set(d.get() + 1));
+    let r = catch_unwind(AssertUnwindSafe(f));
+    GUARD_DEPTH.with(|d| d.set(d.get() - 1));
+    match r {
         Ok(v) => Ok(v),
         Err(_) => Err(take_panic()),
     }
